@@ -1,1 +1,143 @@
-From QV Require Import C03.ModelSamples C03.ModelProbs C03.ModelCollapse C03.ModelResult.
+(* C03/Props.v : property theorems for "measurements follow the Born rule and are reported
+   consistently".  Models: C03/ModelProbs.v, ModelSamples.v, ModelCollapse.v, ModelResult.v
+   (tied to /repo by the exact correspondence of harness/c03.py on every run).
+   All theorems are for every number of qubits n, every duplicate-free in-range qubit list in
+   ANY order (unless stated), every state / weight vector over Z resp. Z[i]. *)
+From Coq Require Import List Bool Arith ZArith.
+From QV Require Import Base.Mat Base.Zi C03.ModelSamples C03.ModelProbs C03.ModelCollapse C03.ModelResult
+     C03.ProofsSamples C03.ProofsProbs C03.ProofsProbsDM C03.ProofsCollapse C03.ProofsCollapseDM
+     C03.ProofsResult.
+Import ListNotations.
+
+(* calculate_probabilities = Born marginal sum_{x : x|qs = b} |psi_x|^2 in the requested order.
+   The real code raises (numpy transpose) for repeated or out-of-range qubits. *)
+Theorem probs_sv_ok :
+  forall n qs w, NoDup qs -> (forall q, In q qs -> q < n) -> calc_probs n qs w = born_vec n qs w.
+Proof. exact probs_sv_correct. Qed.
+Print Assumptions probs_sv_ok.
+
+Example probs_sv_ok_nonvacuous :
+  NoDup [2; 0] /\ (forall q, In q [2; 0] -> q < 3) /\
+  calc_probs 3 [2; 0] [1; 4; 9; 16; 25; 36; 49; 25]%Z = [10; 74; 20; 61]%Z.
+Proof.
+  split; [|split].
+  - constructor; [cbn; intros [H|[]]; discriminate | constructor; [intros [] | constructor]].
+  - intros q [<-|[<-|[]]]; auto.
+  - vm_compute. reflexivity.
+Qed.
+
+(* calculate_probabilities_density_matrix: the value before np.abs is the Born marginal of the
+   diagonal of rho (over Z[i], any matrix); for a real non-negative diagonal np.abs is the
+   identity and the reported probabilities are the Born marginal *)
+Theorem probs_dm_pre_ok :
+  forall n qs, NoDup qs -> (forall q, In q qs -> q < n) -> forall rho,
+    calc_probs_dm_pre n qs rho = born_vec_zi n qs (dm_diag rho).
+Proof. exact probs_dm_pre_correct. Qed.
+Print Assumptions probs_dm_pre_ok.
+
+Theorem probs_dm_ok :
+  forall n qs rho, NoDup qs -> (forall q, In q qs -> q < n) ->
+    Forall (fun z => (0 <= fst z)%Z) (dm_diag rho) ->
+    calc_probs_dm n qs rho = born_vec n qs (map fst (dm_diag rho)).
+Proof. exact probs_dm_correct. Qed.
+Print Assumptions probs_dm_ok.
+
+(* samples_to_binary / samples_to_decimal are mutually inverse *)
+Theorem bin_dec_inverse :
+  (forall k s, s < 2 ^ k -> to_dec (to_bin k s) = s) /\
+  (forall k b, length b = k -> to_bin k (to_dec b) = b).
+Proof. exact (conj bin_dec_inverse_l bin_dec_inverse_r). Qed.
+Print Assumptions bin_dec_inverse.
+
+(* calculate_frequencies: a Counter with distinct keys whose entries are the numbers of
+   occurrences, hence summing to the number of shots *)
+Theorem freq_total :
+  forall l, total (calc_freq l) = length l /\ NoDup (keys (calc_freq l)) /\
+            forall v, lookup v (calc_freq l) = count_occ Nat.eq_dec l v.
+Proof. intros l. exact (conj (total_calc_freq l) (conj (nodup_calc_freq l) (lookup_calc_freq l))). Qed.
+Print Assumptions freq_total.
+
+(* register data = the outcome read along the register's own qubit list: if the row of the
+   global samples is the outcome sigma read along the global measured qubits Q (in the order
+   the qubits were given), the columns samples[:, rqubits] of a register are sigma read along
+   the register's qubits in their own order.  Needs that no qubit is measured twice. *)
+Theorem register_view_ok :
+  forall Q reg (sigma : nat -> bool), NoDup Q -> incl reg Q ->
+    take_cols (reg_cols Q reg) (map sigma Q) = map sigma reg.
+Proof. exact register_view. Qed.
+Print Assumptions register_view_ok.
+
+(* the projection of frequencies onto a register (the rfreqs loop) counts the projected shots *)
+Theorem register_freq_ok :
+  forall k cols f u, NoDup (keys (reg_freq k cols f)) /\
+    lookup u (reg_freq k cols f) =
+    count_occ Nat.eq_dec (map (fun s => to_dec (take_cols cols (to_bin k s))) (expand f)) u.
+Proof. intros. exact (conj (nodup_reg_freq k cols f) (lookup_reg_freq k cols f u)). Qed.
+Print Assumptions register_freq_ok.
+
+(* every view returned by one result is a function of one list of shots: invariant over all
+   operation sequences (any order and flags of samples()/frequencies()/probabilities(), any
+   number of executions of the circuit before or after) in which samples()/frequencies() are
+   called on the single result r0; the shots have the right count and non-zero probability
+   ([shots_ok], from the sampler contract [oracles_ok]) *)
+Theorem views_consistent :
+  forall cfg r0, cfg_wf cfg -> forall h,
+    hist_wf cfg 0 h = true -> oracles_ok cfg (init cfg) h = true -> single_reader r0 h = true ->
+    standalone cfg h.
+Proof. exact single_reader_standalone. Qed.
+Print Assumptions views_consistent.
+
+Example views_consistent_nonvacuous :
+  let cfg := mkcfg 3 [[2; 0]; [1]] in
+  let h := [Exec [1; 0; 0; 1; 0; 0; 2; 0]%Z 3; Freqs 0 false true [(0, 1); (5, 2)];
+            Samples 0 true true [5; 0; 5]; Probs 0 [1; 2]; Freqs 0 true false []; Samples 0 false false []] in
+  hist_wf cfg 0 h = true /\ oracles_ok cfg (init cfg) h = true /\ single_reader 0 h = true /\
+  fst (run cfg (init cfg) h) =
+    [ODone; ORegFreqDec [[(0, 1); (2, 2)]; [(0, 1); (1, 2)]];
+     ORegSamplesBin [[[true; false]; [false; false]; [true; false]]; [[true]; [false]; [true]]];
+     OProbs [1; 0; 2; 1]%Z; OFreqBin [([false; false; false], 1); ([true; false; true], 2)];
+     OSamplesDec [5; 0; 5]].
+Proof. vm_compute. auto. Qed.
+
+(* M.apply with collapse=True: the state becomes the (un-normalised) projection P psi onto the
+   recorded outcome of the SORTED qubits and the squared norm used for the normalisation is the
+   Born probability of that outcome *)
+Theorem collapse_ok :
+  forall n tq shot psi, NoDup tq -> (forall q, In q tq -> q < n) ->
+    collapsed (m_apply n tq shot psi) = Some (project n (sort_nat tq) (recorded (m_apply n tq shot psi)) psi) /\
+    cnorm2 (m_apply n tq shot psi) = born n (sort_nat tq) (map zi_norm2 psi) (recorded (m_apply n tq shot psi)).
+Proof. exact m_apply_sorted. Qed.
+Print Assumptions collapse_ok.
+
+(* collapse_density_matrix (what M.apply_density_matrix calls on the sorted qubits) = P rho P *)
+Theorem collapse_dm_ok :
+  forall n qs, asc 0 qs = true -> (forall q, In q qs -> q < n) -> forall shot rho,
+    collapse_dm n qs shot rho = Some (project_dm n qs (to_bin (length qs) shot) rho).
+Proof. exact collapse_dm_sorted. Qed.
+Print Assumptions collapse_dm_ok.
+
+(* FULL STATEMENT (collapse_recorded_order): forall n tq shot psi, NoDup tq -> in range ->
+     collapsed (m_apply n tq shot psi) = Some (project n tq (recorded (m_apply n tq shot psi)) psi)
+   i.e. the recorded bits are in the order of the gate's qubits.  FALSE of the faithful model: *)
+Theorem collapse_recorded_order_refuted :
+  exists n tq shot psi,
+    NoDup tq /\ (forall q, In q tq -> q < n) /\ shot < 2 ^ length tq /\
+    collapsed (m_apply n tq shot psi) <> Some (project n tq (recorded (m_apply n tq shot psi)) psi).
+Proof.
+  exists 3, [2; 0], 2, [zi0; zi0; zi0; zi0; zi1; zi0; zi0; zi0].
+  exact m_apply_recorded_order_counterexample.
+Qed.
+Print Assumptions collapse_recorded_order_refuted.
+
+(* ... and true when the gate's qubits are given in ascending order.
+   Missing w.r.t. the full statement: qubit lists that are not ascending. *)
+Theorem collapse_recorded_order_partial :
+  forall n tq shot psi, asc 0 tq = true -> (forall q, In q tq -> q < n) ->
+    collapsed (m_apply n tq shot psi) = Some (project n tq (recorded (m_apply n tq shot psi)) psi).
+Proof. exact m_apply_recorded_order_asc. Qed.
+Print Assumptions collapse_recorded_order_partial.
+
+Example collapse_recorded_order_partial_nonvacuous :
+  asc 0 [0; 2] = true /\ (forall q, In q [0; 2] -> q < 3) /\
+  recorded (m_apply 3 [0; 2] 2 [zi0; zi0; zi0; zi0; zi1; zi0; zi0; zi0]) = [true; false].
+Proof. split; [reflexivity | split; [intros q [<-|[<-|[]]]; auto | reflexivity]]. Qed.
